@@ -197,6 +197,13 @@ func c11Gen(rt *rapid.T) c11Prog {
 			p.Ops = append(p.Ops, reqs())
 		}
 	}
+	if gPct(rt, 10) {
+		// long polling: two logins of one session arrive in parallel HTTP requests, the slow one (a password
+		// to hash) first: a session logs in at most once
+		p.Ops = append(p.Ops, wOp{K: "hi", S: 1, A: "0.22"}, wOp{K: "par", Par: []wOp{
+			{K: "login", S: 1, A: "basic", B: "alice1:" + c11Password},
+			{K: "login", S: 1, A: "token", U: gPick(rt, []int{0, 2, 3}, "paru"), B: "valid", L: gInt(rt, 0, 3, "pary")}}})
+	}
 	return p
 }
 
@@ -273,6 +280,19 @@ func (o *c11Obs) userOK(u int) (ok bool, needCred bool) {
 }
 
 func (o *c11Obs) After(w *wWorld, st *wStep) *kit.Viol {
+	if st.Op.K == "par" && !o.unknown {
+		var okd []string
+		for _, s := range st.Sub {
+			if c := s.reply(); s.Op.K == "login" && s.Sess == 1 && c != nil && c.Code >= 200 && c.Code < 300 {
+				okd = append(okd, fmt.Sprintf("%s -> %d %v", s.Req, c.Code, c.Params))
+			}
+		}
+		if len(okd) > 1 {
+			return kit.V("two-logins-accepted-on-one-session", "requests of one long-polling session sent in parallel: %d logins were accepted (%v); the session is now %s", len(okd), okd, w.sess[1].s.uid.UserId())
+		}
+		o.unknown = true // (which of the two won is the scheduler's choice: the model does not follow further)
+		return nil
+	}
 	if st.Sess != 1 || st.Skipped || o.unknown {
 		return nil
 	}
